@@ -8,7 +8,7 @@ from hypothesis import strategies as st
 
 from ..ref import relptr as RP
 from ..ref import rfc6901 as P
-from ..run import Stats, hyp_run, mix
+from ..run import Stats, hyp_run, mix, rng_for
 from ..strict import short
 
 from jsonpath import JSONPointer, JSONPointerError, RelativeJSONPointer, RelativeJSONPointerError
@@ -158,7 +158,7 @@ def t_random(seed, n):
 
     def body(x):
         base, stoks, s = x
-        rng = random.Random(s)
+        rng = rng_for(s)
         stats.case()
         steps = rng.randint(0, len(base) + 1)
         r = rng.random()
